@@ -538,3 +538,38 @@ Example C16_source_display_sections_witness :
     (G.ChildOutput_Split (G.mk_ChildSplitOutput (Some (G.mk_ChildSingleOutput 1 true)) (Some (G.mk_ChildSingleOutput 2 false))))
     10 20 30 = [20].
 Proof. vm_compute. split; reflexivity. Qed.
+
+(* ---- the order of the environment sources of a test process (C15) *)
+
+(* C15 "nextest's own variables win": the calls TestCommand::new makes on the Command, in order (apply_package_env
+   followed; the condition `the package has a build-script output directory` is an input), regenerated from the source:
+   every call is one Model/EnvOrder.v knows ([EnvClassify.of_call]: config [env], OUT_DIR and the build script's
+   rustc-env are the user's / the build's; NEXTEST*, __NEXTEST*, CARGO_*, apply_ld_dyld_env are nextest's own), every
+   user / build source comes before every source of nextest's own, and both kinds occur. Moving the OUT_DIR / rustc-env
+   block after apply_package_env falsifies it. The VALUES written stay with C15's differential stage (hook H5). *)
+Theorem C15_source_env_order :
+  forall c,
+    let sources := map EnvClassify.of_call (G.test_command_env c) in
+    MEO.all_classified sources = true /\
+    MEO.user_before_nextest sources = true /\
+    existsb MEO.is_user sources = true /\
+    existsb (fun s => match s with MEO.SrcNextest => true | _ => false end) sources = true.
+Proof. exact gen_env_order_is_model. Qed.
+Print Assumptions C15_source_env_order.
+
+(* the model's fact, from the property text (Command::env keeps the last value written): with that order a variable
+   nextest provides has nextest's value in the test process although a user / build source wrote it too *)
+Theorem C15_nextest_value_wins :
+  forall k ws,
+    MEO.user_before_nextest (map snd ws) = true ->
+    In (k, MEO.SrcNextest) ws ->
+    (forall s, In (k, s) ws -> s = MEO.SrcUser \/ s = MEO.SrcNextest) ->
+    MEO.winner k ws = Some MEO.SrcNextest.
+Proof. exact PEO.nextest_value_wins. Qed.
+Print Assumptions C15_nextest_value_wins.
+
+(* ... and the order matters: a build source applied after nextest's own would win *)
+Example C15_build_after_nextest_loses :
+  MEO.user_before_nextest [MEO.SrcNextest; MEO.SrcUser] = false /\
+  MEO.winner 7 [(7, MEO.SrcNextest); (7, MEO.SrcUser)] = Some MEO.SrcUser.
+Proof. exact PEO.build_after_nextest_loses. Qed.
